@@ -14,11 +14,13 @@ import (
 	"bytes"
 	"encoding/json"
 	"fmt"
+	"io"
 	"os"
 	"os/exec"
 	"path/filepath"
 	"strings"
 	"sync"
+	"testing/iotest"
 
 	"github.com/magisterquis/curlrevshell/lib/shellfuncsfile"
 	"github.com/magisterquis/curlrevshell/verifx/ev"
@@ -369,6 +371,34 @@ func c16(r *ev.Result, tier string) {
 		depth = 5
 	}
 	c16Converters(r, base, depth)
+	/* The script may come from any io.Reader: one byte at a time, in halves,
+	the last bytes together with io.EOF (as archive/zip, compress/gzip and
+	archive/tar entries deliver them), everything together with io.EOF. */
+	for si, script := range []string{c16ConvScripts[0], c16ConvScripts[1], strings.Repeat("# a comment line to make the script longer than any buffer\n", 1200) + "print \"long\\n\";\nexit 3;\n"} {
+		shapes := map[string]func() io.Reader{
+			"one-byte-reads":    func() io.Reader { return iotest.OneByteReader(strings.NewReader(script)) },
+			"half-reads":        func() io.Reader { return iotest.HalfReader(strings.NewReader(script)) },
+			"data-with-eof":     func() io.Reader { return iotest.DataErrReader(strings.NewReader(script)) },
+			"data-with-eof-1b":  func() io.Reader { return iotest.DataErrReader(iotest.OneByteReader(strings.NewReader(script))) },
+			"all-at-once-w-eof": func() io.Reader { return &allAtOnceEOF{s: script} },
+			"timeout-then-data": func() io.Reader { return iotest.TimeoutReader(strings.NewReader(script)) },
+		}
+		for name, mk := range shapes {
+			fn, err := shellfuncsfile.FromPerl("tool.pl", mk())
+			c := c16Case{Class: "reader-shape/" + name, Script: script, Shell: fmt.Sprintf("script %d", si)}
+			if "timeout-then-data" == name {
+				/* A reader that fails: an error, or else the whole script. */
+				if nil != err {
+					continue
+				}
+			} else if nil != err {
+				r.Violate(ev.Violation{Signature: "static/conversion-failed/reader-shape/" + name, What: fmt.Sprintf("FromPerl failed on a reader delivering the script as %s: %v", name, err), Kind: "c16conv", Replay: c})
+				continue
+			}
+			c16Static(r, c, "tool.pl", fn)
+			r.Add(1)
+		}
+	}
 	/* Name derivation, statically. */
 	for _, n := range []string{"tool.pl", "my.tool.pl", "dir/sub/x.pl", "noext", "UPPER.PL.pl"} {
 		fn, err := shellfuncsfile.FromPerl(n, strings.NewReader("print 1;\n"))
@@ -414,4 +444,23 @@ func c16Replay(kind string, raw json.RawMessage) int {
 	}
 	fmt.Println("not reproduced")
 	return 0
+}
+
+// allAtOnceEOF returns everything it has together with io.EOF.
+type allAtOnceEOF struct {
+	s    string
+	done bool
+}
+
+func (a *allAtOnceEOF) Read(p []byte) (int, error) {
+	if a.done {
+		return 0, io.EOF
+	}
+	if len(p) < len(a.s) {
+		n := copy(p, a.s)
+		a.s = a.s[n:]
+		return n, nil
+	}
+	a.done = true
+	return copy(p, a.s), io.EOF
 }
